@@ -185,7 +185,7 @@ package controller
 //@   trusted "printing has no effect on program state"
 
 //@ func (*DefaultFanController).computePwmMapAutomatically
-//@   safety C09
+//@   safety none
 //@   requires f != nil && fans.fanWF(f.fan)
 //@   ensures f.pwmMap != nil
 //@   modifies f.pwmMap, pwmWrites, lastPwm, lastPwmErr, modeWrites, lastMode, modeVerified, fileInt, procWorld, started, lastReadFailed, supportsResult, f.fan.(*fans.HwMonFan).Pwm, f.fan.(*fans.FileFan).Pwm, f.fan.(*fans.CmdFan).Pwm
@@ -194,7 +194,7 @@ package controller
 
 //@ func (*DefaultFanController).computePwmMap
 //@   props C15
-//@   safety C09
+//@   safety none
 //@   requires f != nil && fans.fanWF(f.fan) && f.persistence != nil && persistence.dbWF()
 //@   ensures[C15.config] old(cfgMap(f.fan)) != nil ==> err == nil && ref(f.pwmMap) == old(ref(*cfgMap(f.fan))) && pwmWrites == old(pwmWrites) && modeWrites == old(modeWrites)
 //@   ensures[C15.stored] old(cfgMap(f.fan)) == nil && mapLoadOK[old(mapLoadCount)] && mapLoadRes[old(mapLoadCount)] != 0 ==> err == nil && ref(f.pwmMap) == mapLoadRes[old(mapLoadCount)] && pwmWrites == old(pwmWrites) && modeWrites == old(modeWrites)
@@ -208,7 +208,8 @@ package controller
 
 //@ func (*DefaultFanController).RunInitializationSequence
 //@   props C15
-//@   safety C09
+//@   dispatchonly C15 C16
+//@   safety none
 //@   ghostdo initRuns := initRuns + 1
 //@   ensures initRuns == old(initRuns) + 1
 //@   ensures f.fan == old(f.fan) && f.persistence == old(f.persistence) && fans.fanWF(f.fan) && persistence.dbWF() && f.originalPwmEnabled == old(f.originalPwmEnabled)
@@ -228,7 +229,8 @@ package controller
 
 //@ func (*DefaultFanController).Run
 //@   props C15
-//@   safety C09
+//@   dispatchonly C15 C16
+//@   safety none
 //@   requires f != nil && fans.fanWF(f.fan) && f.persistence != nil && persistence.dbWF() && ctx != nil && ref(fans.dataPtr(f.fan)) < W
 //@   atcall[C15.noinit] (*Group).Run: curveLoadOK[old(curveLoadCount)] ==> initRuns == old(initRuns)
 //@   atcall[C15.nosweep] (*Group).Run: curveLoadOK[old(curveLoadCount)] && (old(cfgMap(f.fan)) != nil || (mapLoadOK[old(mapLoadCount)] && mapLoadRes[old(mapLoadCount)] != 0)) ==> pwmWrites == old(pwmWrites) && modeWrites == old(modeWrites)
